@@ -239,13 +239,9 @@ def graphs(ctx, build_graph, nested_specs) -> list[tuple[str, Any]]:
     return out
 
 
-# Found by this batch on the clean tree and handed to the coordinator with a patch
-# (proposed_fixes/c13-walkmapper-reshape-newshape.diff): WalkMapper.map_reshape (= _map_index_remapping_base)
-# does not recurse into the array-valued components of Reshape.newshape, which CopyMapper / CombineMapper do.
-# Listed in the batch's evidence instead of failing the check until that is decided; once map_reshape visits
-# newshape nothing is produced here and the entry is inert.
-HANDED_OVER = {("extra-args-node-not-visited", "WalkMapper", "newshape"),
-               ("extra-args-node-not-visited", "CachedWalkMapper", "newshape")}
+# (WalkMapper.map_reshape did not recurse into the array-valued components of Reshape.newshape: found by this batch,
+# repaired in /repo by 97d669b; nothing is exempt any more)
+HANDED_OVER: set = set()
 
 
 def check_extra_args(ctx, build_graph, nested_specs):
